@@ -156,7 +156,7 @@ fn domain(t: &Ty, arms: &[Pat]) -> Vec<Val> {
             res.into_iter().map(Val::Tuple).collect()
         }
         Ty::Struct => {
-            let sub = |i: usize| -> Vec<Pat> { arms.iter().filter_map(|p| if let Pat::Struct(fs, _) = p { fs.iter().find(|(j, _)| *j == i).map(|(_, q)| q.clone()) } else { None }).collect() };
+            let sub = |i: usize| -> Vec<Pat> { arms.iter().filter_map(|p| if let Pat::Struct(fs, _) = p { Some(fs.iter().filter(|(j, _)| *j == i).map(|(_, q)| q.clone()).collect::<Vec<_>>()) } else { None }).flatten().collect() };
             let (da, db, dc) = (domain(&s_field_ty(0), &sub(0)), domain(&s_field_ty(1), &sub(1)), domain(&s_field_ty(2), &sub(2)));
             // the u8 / i8 fields have 256 values each: boundary-induced representatives keep the product small
             let reps = |d: Vec<Val>, ps: Vec<Pat>| -> Vec<Val> {
@@ -418,7 +418,12 @@ fn rand_pat(rng: &mut Rng, t: &Ty) -> Pat {
             let mut idx = vec![0usize, 1, 2];
             for i in (1..3).rev() { let j = rng.below(i + 1); idx.swap(i, j); }
             let keep = 1 + rng.below(3);
-            let fs: Vec<(usize, Pat)> = idx[..keep].iter().map(|i| (*i, rand_pat(rng, &s_field_ty(*i)))).collect();
+            let mut fs: Vec<(usize, Pat)> = idx[..keep].iter().map(|i| (*i, rand_pat(rng, &s_field_ty(*i)))).collect();
+            if rng.below(8) == 0 {
+                // a field named twice (read as: both patterns must match): must be refused, or at least decided consistently
+                let i = fs[rng.below(fs.len())].0;
+                fs.push((i, rand_pat(rng, &s_field_ty(i))));
+            }
             Pat::Struct(fs, keep < 3 || rng.below(4) == 0)
         }
         Ty::Enum => match rng.below(5) {
@@ -525,6 +530,28 @@ fn directed(t: &Ty) -> Vec<Vec<Pat>> {
             if let Ty::Int(..) = c {
                 for arms in directed(c) {
                     out.push(arms.into_iter().map(|p| Pat::Tuple((0..ts.len()).map(|j| if j == i { p.clone() } else { Pat::Wild }).collect())).collect());
+                }
+            }
+        }
+        // a specific first component, then a catch-all whose OTHER component is restricted (not exhaustive), and the same completed by a full
+        // catch-all (exhaustive): the values that the first arm leaves over must be decided by the remaining columns of the catch-all arm
+        fn samples(t: &Ty) -> Vec<Pat> {
+            match t {
+                Ty::Bool => vec![Pat::True, Pat::False],
+                Ty::Int(_, lo, hi) => vec![Pat::Int(*lo), Pat::Incl(*lo, *lo / 2 + *hi / 2)],
+                Ty::Enum => vec![Pat::EnumA, Pat::EnumB(Box::new(Pat::Wild)), Pat::EnumC(Box::new(Pat::Wild), Box::new(Pat::Wild))],
+                Ty::Struct => vec![Pat::Struct(vec![(0, Pat::Int(0))], true), Pat::Struct(vec![(1, Pat::True)], true)],
+                _ => vec![],
+            }
+        }
+        if ts.len() >= 2 {
+            let wilds = |k: usize, p: &Pat| Pat::Tuple((0..ts.len()).map(|j| if j == k { p.clone() } else { Pat::Wild }).collect());
+            for (a, b) in [(0usize, 1usize), (1, 0)] {
+                for pa in samples(&ts[a]) {
+                    for pb in samples(&ts[b]) {
+                        out.push(vec![wilds(a, &pa), wilds(b, &pb)]);
+                        out.push(vec![wilds(a, &pa), wilds(b, &pb), Pat::Wild]);
+                    }
                 }
             }
         }
